@@ -4,10 +4,10 @@
    iterfit result in the correspondence run, `model_fit` = the C10 iterfit model in the fit-level theorems).
    "Same grid is the identity to interpolation accuracy" is an approximation statement: measured by the
    correspondence run (2e-3 on smooth inputs), deliberately NOT a theorem. *)
-From Coq Require Import QArith Qminmax List Bool Arith.
+From Coq Require Import QArith Qminmax Qabs List Bool Arith.
 Import ListNotations.
 From PV Require Import Lib.WLS BSpline.Eval BSpline.Fit BSpline.Iter BSpline.KnotsProofs
-  Generated.Combine1fiber C11.Model C11.Proofs C11.ProofsIvar C11.ProofsFlux C11.ProofsScale C11.ProofsFit C11.ProofsGen.
+  Generated.Combine1fiber C11.Model C11.Proofs C11.ProofsIvar C11.ProofsFlux C11.ProofsScale C11.ProofsFit C11.ProofsGen C11.ProofsR5.
 Open Scope Q_scope.
 
 (* ---- lengths: |newflux| = |newivar| = |newloglam|, for every input and every fit result *)
@@ -128,7 +128,7 @@ Print Assumptions C11_model_fit_constant.
 (* ---- scaling law: flux * s, ivar / s^2 (and the per-group fits scaled by s) scale the outputs likewise.
    The growth test |smooth3| < EPS is absolute; the hypothesis says the rescaling moves no 3-pixel mean across EPS. *)
 Theorem C11_scaling_law : forall s c iv fits,
-  0 < s -> c_nspec c = 1%nat -> c_ivar c = Some iv ->
+  0 < s -> c_nspec c = 1%nat -> c_stacked c = false -> c_ivar c = Some iv ->
   growth_decisions_agree s c fits ->
   let (nf, ni) := combine1fiber_model c fits in
   let (nf', ni') := combine1fiber_model (scale_cin s c) (map (scale_fit s) fits) in
@@ -149,7 +149,7 @@ Print Assumptions C11_iter_loop_scale.
 Theorem C11_model_fit_scale : forall s maxiter lower upper bkspace k c ss iv g g',
   let gb := knots_of_option (OBkspace bkspace) (map (nthQ (c_inloglam c)) ss) k 1 in
   (1 <= k)%nat -> (2 * k <= length gb)%nat -> 0 < s ->
-  c_ivar c = Some iv -> (c_nspec c < 2)%nat ->
+  c_ivar c = Some iv -> c_stacked c = false ->
   model_fit fit_dense maxiter lower upper bkspace k c ss = Some g ->
   model_fit fit_dense maxiter lower upper bkspace k (scale_cin s c) ss = Some g' ->
   fit_equiv (Some g') (scale_fit s (Some g)).
@@ -165,7 +165,7 @@ Print Assumptions C11_shift_grid_nth.
 Theorem C11_preprocess_is_shifted_call : forall shift c fits,
   preprocess_model shift c fits =
   combine1fiber_model (mkCin (shift_grid shift (c_inloglam c)) (c_flux c) (c_ivar c) (c_specnum c) (c_nspec c)
-                             (c_newloglam c) (c_maxsep c) (c_k c) (c_method c) (c_isort c)) fits.
+                             (c_newloglam c) (c_maxsep c) (c_k c) (c_method c) (c_isort c) (c_stacked c)) fits.
 Proof. exact preprocess_is_shifted_call. Qed.
 Print Assumptions C11_preprocess_is_shifted_call.
 
@@ -231,11 +231,162 @@ Theorem C11_generated_growth : forall v,
 Proof. exact gen_grow. Qed.
 Print Assumptions C11_generated_growth.
 
+(* ================================================================== round 5 *)
+(* ---- aesthetics='damp', the taper 0.5*(1+erf) an arbitrary function with values in [0,1]:
+   the inverse variance is the one of every other method (all ivar theorems above hold verbatim for damp) ... *)
+Theorem C11_damp_ivar_same : forall (erfh : Q -> Q) c fits,
+  snd (combine1fiber_damp erfh c fits) = snd (combine1fiber_model c fits).
+Proof. exact damp_ivar_same. Qed.
+Print Assumptions C11_damp_ivar_same.
+
+Theorem C11_damp_lengths : forall (erfh : Q -> Q) c fits,
+  length (fst (combine1fiber_damp erfh c fits)) = length (c_newloglam c) /\
+  length (snd (combine1fiber_damp erfh c fits)) = length (c_newloglam c).
+Proof. exact damp_lengths. Qed.
+Print Assumptions C11_damp_lengths.
+
+(* ... and the damped flux never exceeds in size the flux filled in by the traditional method (so it is finite, zero
+   where that is zero, and the taper cannot overshoot) *)
+Theorem C11_damp_le_traditional : forall (erfh : Q -> Q), (forall x, 0 <= erfh x /\ erfh x <= 1) ->
+  forall c fits q, c_method c = Traditional ->
+  Qabs (nthQ (fst (combine1fiber_damp erfh c fits)) q) <= Qabs (nthQ (fst (combine1fiber_model c fits)) q).
+Proof. exact damp_le_traditional. Qed.
+Print Assumptions C11_damp_le_traditional.
+
+(* ---- same grid = identity, the exact part: when the data of a group are the values of a spline of the fit's own space
+   (coefficients a on the group's knots), the rejection loop recovers a in its first pass, rejects nothing, and the
+   fitted spline evaluated at the data abscissae -- resampling onto the same grid -- returns the data exactly.
+   (constants are the special case a = const: C11_iter_loop_constant) *)
+Theorem C11_same_grid_identity_in_space : forall gb k lower upper ds a fuel mask coef m,
+  (1 <= k)%nat -> (2 * k <= length gb)%nat -> length a = (length gb - k)%nat -> length mask = length ds ->
+  Forall2 Qeq (map dy ds) (yfit_of gb k a (map dx ds)) ->
+  iter_loop fit_dense fuel gb k lower upper ds mask = Some (coef, m) ->
+  Forall2 Qeq coef a /\ m = mask /\ Forall2 Qeq (yfit_of gb k coef (map dx ds)) (map dy ds).
+Proof. exact same_grid_identity_in_space. Qed.
+Print Assumptions C11_same_grid_identity_in_space.
+
+(* ... and the unconditional exact identity is false: with breakpoints every 1.2 pixels a group of n pixels has fewer
+   coefficients than pixels, so data outside the spline space are not reproduced.  Witness: eight good pixels with a
+   spike, resampled onto the same grid by the whole chain model; a pixel with positive inverse variance changes.
+   "To interpolation accuracy" is therefore an approximation statement about smooth data (measured: 2e-3). *)
+Theorem C11_same_grid_exact_identity_refuted : exists c bkspace q,
+  c_newloglam c = c_inloglam c /\ c_ivar c = Some (map (fun _ => 1) (c_inloglam c)) /\
+  0 < nthQ (snd (combine1fiber_chain fit_dense bkspace c)) q /\
+  ~ nthQ (fst (combine1fiber_chain fit_dense bkspace c)) q == nthQ (c_flux c) q.
+Proof. exact same_grid_exact_identity_refuted. Qed.
+Print Assumptions C11_same_grid_exact_identity_refuted.
+
+(* ---- degenerate output grids: with fewer than 3 pixels smooth() has no interior pixel, so
+   one pixel: newivar is the interpolated inverse variance itself; two pixels: both or none *)
+Theorem C11_grow_one_pixel : forall a, Forall2 Qeq (grow [a]) [a].
+Proof. exact grow_one. Qed.
+Print Assumptions C11_grow_one_pixel.
+
+Theorem C11_grow_two_pixels : forall a b,
+  grow [a; b] = if c1f_bad a || c1f_bad b then [0; 0] else [a; b].
+Proof. exact grow_two. Qed.
+Print Assumptions C11_grow_two_pixels.
+
+(* ---- more of the stage control is the source's (Generated/Combine1fiber.v, regenerated on every run) *)
+Theorem C11_generated_no_good : forall c fits, c1f_no_good (length (good_index c)) = true ->
+  combine1fiber_model c fits = (map (fun _ => 0) (c_newloglam c), map (fun _ => 0) (c_newloglam c)).
+Proof. exact gen_no_good. Qed.
+Print Assumptions C11_generated_no_good.
+
+Theorem C11_generated_usable : forall ss f, usable ss f =
+  if (length ss <=? c1f_min_group)%nat then None
+  else match f with Some g => if c1f_coeff_dead (g_coeff g) then None else Some g | None => None end.
+Proof. exact gen_usable. Qed.
+Print Assumptions C11_generated_usable.
+
+Theorem C11_generated_inbetween : forall inloglam wts comb these newloglam newmask,
+  ivar_of_exposure inloglam wts comb these newloglam newmask =
+  let xs := map (nthQ inloglam) these in
+  let pv := map (fun i => (nthQ inloglam i, nthQ wts i * b2q (nthB comb i))) these in
+  let pm := map (fun i => (nthQ inloglam i, b2q (nthB comb i))) these in
+  map (fun t => let '(p, m) := t in
+         if c1f_inbetween (lminQ xs) (lmaxQ xs) p then
+           (if c1f_smask_ok (interp pm p) then interp pv p else 0) * b2q m
+         else 0) (combine newloglam newmask).
+Proof. exact gen_inbetween. Qed.
+Print Assumptions C11_generated_inbetween.
+
+Theorem C11_generated_median : forall nspec specnum ivar,
+  smooth_weights nspec specnum ivar =
+  fold_left (fun iv j =>
+      let idx := filter (fun i => (nth i specnum O =? j)%nat && Qltb 0 (nthQ ivar i)) (seq 0 (length ivar)) in
+      set_many idx (median_filter c1f_median_width (map (nthQ ivar) idx)) iv)
+    (seq 0 nspec) ivar.
+Proof. exact gen_median. Qed.
+Print Assumptions C11_generated_median.
+
+Theorem C11_generated_chain_fit : forall sv bkspace c ss,
+  chain_fit sv bkspace c ss =
+  let ys := map (nthQ (c_flux c)) ss in
+  let ws := match c_ivar c with
+            | Some iv => map (nthQ (weights c)) ss
+            | None => let w := default_invvar ys in map (fun _ => w) ss end in
+  let ds := map (fun t : nat * Q => mkDatum (nthQ (c_inloglam c) (fst t)) (nthQ (c_flux c) (fst t)) (snd t)) (combine ss ws) in
+  let bk := knots_of_option (OBkspace bkspace) (map dx ds) (c_k c) 1 in
+  chain_loop sv (S c1f_iterfit_maxiter) c1f_requiren (c_k c) c1f_iterfit_lower c1f_iterfit_upper
+             bk (map (fun _ => true) bk) ds (initial_mask ds).
+Proof. exact gen_chain_fit. Qed.
+Print Assumptions C11_generated_chain_fit.
+
+Theorem C11_generated_damp : forall erfh flux iv,
+  aesthetics_damp erfh flux iv =
+  let bad := map (fun v => Qeq_bool v 0) iv in
+  if forallb (fun b : bool => b) bad then flux
+  else if existsb (fun b => b) bad then
+    let good := filter (fun i => negb (nthB bad i)) (seq 0 (length iv)) in
+    let mingood := hd O good in
+    let maxgood := last good O in
+    let n := length flux in
+    let t1 := fun i : nat => if c1f_taper1_on mingood
+                             then erfh ((qnat i - qnat mingood) / qnat (Nat.min mingood c1f_damp_len)) else 1 in
+    let t2 := fun i : nat => if c1f_taper2_on maxgood n
+                             then erfh ((qnat maxgood - qnat i) / qnat (Nat.min maxgood c1f_damp_len)) else 1 in
+    map (fun t : nat * Q => snd t * t1 (fst t) * t2 (fst t)) (combine (seq 0 n) (maskinterp_idx flux bad))
+  else flux.
+Proof. exact gen_damp. Qed.
+Print Assumptions C11_generated_damp.
+
+Theorem C11_generated_pp_shift : forall s l, shift_grid s l = map (fun L => pp_shift L s) l.
+Proof. exact gen_pp_shift. Qed.
+Print Assumptions C11_generated_pp_shift.
+
+(* non-vacuity, round 5 *)
+(* damp with the table instance: three pixels, the first without variance: maskinterp fills 2, the taper (value 1/2 at
+   argument 0, 1/4 at -1, 3/4 at 1) multiplies EVERY pixel *)
+Example C11_example_damp :
+  all2 Qeq_bool (aesthetics_damp (table_fun [(-1 # 1, 1 # 4); (0, 1 # 2); (1, 3 # 4)]) [7; 2; 2] [0; 4; 4]) [1 # 2; 1; 3 # 2] = true.
+Proof. vm_compute. reflexivity. Qed.
+
+(* the in-space theorem is not vacuous: the all-ones spline on 6 knots of order 3 fitted to four points *)
+Example C11_example_in_space :
+  let gb := [0; 0; 0; 1; 1; 1] in
+  let ds := [mkDatum 0 1 1; mkDatum (1 # 4) 1 1; mkDatum (1 # 2) 1 1; mkDatum (3 # 4) 1 1] in
+  all2 Qeq_bool (map dy ds) (yfit_of [-2 # 1; -1 # 1; 0; 1; 2; 3] 3 [1; 1; 1] (map dx ds)) = true /\
+  match iter_loop fit_dense 11 [-2 # 1; -1 # 1; 0; 1; 2; 3] 3 5 5 ds [true; true; true; true] with
+  | Some (coef, m) => all2 Qeq_bool coef [1; 1; 1] = true /\ m = [true; true; true; true]
+  | None => False
+  end.
+Proof. vm_compute. repeat split; reflexivity. Qed.
+
+(* the whole chain on a degenerate call: six good pixels on a line, ONE output pixel half way between pixels 1 and 2;
+   answer: the line's value there, inverse variance 4 -- what the code returns for this call *)
+Example C11_example_chain_one_pixel :
+  let c := mkCin [0; 1; 2; 3; 4; 5] [2; 3; 4; 5; 6; 7] (Some [4; 4; 4; 4; 4; 4]) [0; 0; 0; 0; 0; 0]%nat 1 [3 # 2]
+                 2 3 Traditional [0; 1; 2; 3; 4; 5]%nat false in
+  all2 Qeq_bool (fst (combine1fiber_chain fit_dense (6 # 5) c)) [7 # 2] = true /\
+  all2 Qeq_bool (snd (combine1fiber_chain fit_dense (6 # 5) c)) [4] = true.
+Proof. vm_compute. split; reflexivity. Qed.
+
 (* non-vacuity: five pixels, the middle one without weight, resampled half a pixel off: the two output pixels next
    to the bad pixel get no variance, the outer ones the interpolated one *)
 Example C11_example :
   let c := mkCin [0; 1; 2; 3; 4] [1; 1; 1; 1; 1] (Some [4; 4; 0; 2; 2]) [0; 0; 0; 0; 0]%nat 1 [1 # 2; 3 # 2; 5 # 2; 7 # 2]
-                 2 3 Nothing [0; 1; 3; 4]%nat in
+                 2 3 Nothing [0; 1; 3; 4]%nat false in
   snd (stages c [None; None]) = [0; 0; 0; 0] /\
   all2 Qeq_bool (ivar_of_exposure (c_inloglam c) [4; 4; 0; 2; 2] [true; true; false; true; true] [0; 1; 2; 3; 4]%nat
                                   (c_newloglam c) [true; true; true; true]) [4; 0; 0; 2] = true.
